@@ -4,6 +4,12 @@ gen/StatusTable.vos gen/StatusTable.vok gen/StatusTable.required_vos: gen/Status
 theories/Base.vo theories/Base.glob theories/Base.v.beautified theories/Base.required_vo: theories/Base.v 
 theories/Base.vio: theories/Base.v 
 theories/Base.vos theories/Base.vok theories/Base.required_vos: theories/Base.v 
+theories/Context.vo theories/Context.glob theories/Context.v.beautified theories/Context.required_vo: theories/Context.v theories/Base.vo
+theories/Context.vio: theories/Context.v theories/Base.vio
+theories/Context.vos theories/Context.vok theories/Context.required_vos: theories/Context.v theories/Base.vos
+theories/ContextProofs.vo theories/ContextProofs.glob theories/ContextProofs.v.beautified theories/ContextProofs.required_vo: theories/ContextProofs.v theories/Base.vo theories/Context.vo
+theories/ContextProofs.vio: theories/ContextProofs.v theories/Base.vio theories/Context.vio
+theories/ContextProofs.vos theories/ContextProofs.vok theories/ContextProofs.required_vos: theories/ContextProofs.v theories/Base.vos theories/Context.vos
 theories/Rollup.vo theories/Rollup.glob theories/Rollup.v.beautified theories/Rollup.required_vo: theories/Rollup.v theories/Base.vo theories/Status.vo gen/StatusTable.vo
 theories/Rollup.vio: theories/Rollup.v theories/Base.vio theories/Status.vio gen/StatusTable.vio
 theories/Rollup.vos theories/Rollup.vok theories/Rollup.required_vos: theories/Rollup.v theories/Base.vos theories/Status.vos gen/StatusTable.vos
@@ -49,3 +55,6 @@ props/C09.vos props/C09.vok props/C09.required_vos: props/C09.v theories/Base.vo
 props/C12.vo props/C12.glob props/C12.v.beautified props/C12.required_vo: props/C12.v theories/Base.vo theories/Status.vo theories/Rollup.vo theories/Runner.vo theories/RunnerVerdict.vo theories/RunnerSteps.vo theories/RunnerQuiet.vo theories/RunnerSelect.vo theories/RunnerHooks.vo theories/RunnerEq.vo gen/StatusTable.vo
 props/C12.vio: props/C12.v theories/Base.vio theories/Status.vio theories/Rollup.vio theories/Runner.vio theories/RunnerVerdict.vio theories/RunnerSteps.vio theories/RunnerQuiet.vio theories/RunnerSelect.vio theories/RunnerHooks.vio theories/RunnerEq.vio gen/StatusTable.vio
 props/C12.vos props/C12.vok props/C12.required_vos: props/C12.v theories/Base.vos theories/Status.vos theories/Rollup.vos theories/Runner.vos theories/RunnerVerdict.vos theories/RunnerSteps.vos theories/RunnerQuiet.vos theories/RunnerSelect.vos theories/RunnerHooks.vos theories/RunnerEq.vos gen/StatusTable.vos
+props/C13.vo props/C13.glob props/C13.v.beautified props/C13.required_vo: props/C13.v theories/Base.vo theories/Context.vo theories/ContextProofs.vo
+props/C13.vio: props/C13.v theories/Base.vio theories/Context.vio theories/ContextProofs.vio
+props/C13.vos props/C13.vok props/C13.required_vos: props/C13.v theories/Base.vos theories/Context.vos theories/ContextProofs.vos
